@@ -168,9 +168,9 @@ Proof. intros. unfold level_item_del. destruct (existsb _ _); [apply W_set_lv|];
 Lemma W_level_item_add : forall st p it, W st -> W (level_item_add st p it).
 Proof. intros. unfold level_item_add. apply W_set_lv. assumption. Qed.
 
-Lemma W_timer_del : forall st h, W st -> W (timer_del st h).
+Lemma W_timer_del : forall fx st h, W st -> W (timer_del fx st h).
 Proof.
-  intros st h H. unfold timer_del. destruct (timer_from_handle st h) as [e|i t]; [apply W_emit; [assumption|exact I]|].
+  intros fx st h H. unfold timer_del. destruct (timer_from_handle fx st h) as [e|i t]; [apply W_emit; [assumption|exact I]|].
   set (st0 := if s_check t =? 0 then emit st (ENote 2) else st).
   assert (H0 : W st0) by (unfold st0; destruct (s_check t =? 0); [apply W_emit; [assumption|exact I]|assumption]).
   destruct (s_state t =? LT_ENTRY_DELETED); [apply W_emit; [assumption|exact I]|].
@@ -185,9 +185,9 @@ Proof.
   - apply W_emit; [|exact I]. apply W_put_slot; [assumption|]. left. cbn [with_state s_state]. apply (proj2 consts_neq).
 Qed.
 
-Lemma W_time_remaining : forall st h, W st -> W (snd (time_remaining st h)).
+Lemma W_time_remaining : forall fx st h, W st -> W (snd (time_remaining fx st h)).
 Proof.
-  intros st h H. unfold time_remaining. destruct (timer_from_handle st h) as [e|i t]; [assumption|].
+  intros fx st h H. unfold time_remaining. destruct (timer_from_handle fx st h) as [e|i t]; [assumption|].
   destruct (negb (s_state t =? LT_ENTRY_ACTIVE)); [assumption|].
   destruct (W_read_clock st H) as [H2 _]. destruct (read_clock st) as [now st2]. cbn [snd] in H2.
   destruct (_ <? now); assumption.
@@ -222,7 +222,7 @@ Proof.
   - apply W_timer_add; assumption.
   - apply W_timer_del; assumption.
   - apply W_emit; [assumption|exact I].
-  - pose proof (W_time_remaining st (resolve st r) H). destruct (time_remaining st (resolve st r)). apply W_emit; [assumption|exact I].
+  - pose proof (W_time_remaining fixed st (resolve st r) H). destruct (time_remaining fixed st (resolve st r)). apply W_emit; [assumption|exact I].
   - apply W_emit; [assumption|exact I].
   - destruct (W_msec st H) as [X _]. destruct (msec_to_expire fixed st). apply W_emit; [assumption|exact I].
   - apply W_job_add; assumption.
